@@ -25,7 +25,7 @@ func init() { register(c10{}) }
 
 func (c10) ID() string { return "C10" }
 func (c10) Cases(t fw.Tier) int {
-	return tierN(t, 30000, 1200000)
+	return tierN(t, 60000, 2000000)
 }
 func (c10) BatchSize(t fw.Tier) int { return 400 }
 func (c10) Race(t fw.Tier) bool     { return false }
